@@ -369,7 +369,8 @@ fn format_conditional_multiline(
             )
         }
     } else {
-        // Everything on separate lines
+        // Everything on separate lines, except that the condition starts on the `if` line: the
+        // grammar does not allow a line break right after `if`
         // Check if else_expr is another conditional (else-if chain)
         if let Expr::Conditional {
             condition: else_cond,
@@ -380,8 +381,7 @@ fn format_conditional_multiline(
             let else_if_part =
                 format_conditional_multiline(else_cond, else_then, else_else, max_cols, indent);
             format!(
-                "if\n{}{}\n{}then\n{}{}\n{}else {}",
-                make_indent(inner_indent),
+                "if {}\n{}then\n{}{}\n{}else {}",
                 format_expr_impl(condition, max_cols, inner_indent),
                 make_indent(indent),
                 make_indent(inner_indent),
@@ -391,8 +391,7 @@ fn format_conditional_multiline(
             )
         } else {
             format!(
-                "if\n{}{}\n{}then\n{}{}\n{}else\n{}{}",
-                make_indent(inner_indent),
+                "if {}\n{}then\n{}{}\n{}else\n{}{}",
                 format_expr_impl(condition, max_cols, inner_indent),
                 make_indent(indent),
                 make_indent(inner_indent),
